@@ -53,16 +53,29 @@ struct Axes {
 }
 
 /// Reduction axes: variant 0 = last axis (spelled -1 or r-1, attribute or input: free),
-/// 1 = first axis (non-last when r >= 2), 2 = last two axes.
+/// 1 = first axis (non-last when r >= 2), 2 = [r-2, r-1], 3 = [-2, -1], 4 = [0, -1] (multi-entry lists that END
+/// in the last axis: the fusions' "applied to last axis" guard must not look at the last entry only).
 fn norm_axes(g: &G, r: usize, variant: usize, salt: u32) -> Axes {
     let r = r as i64;
     let neg = g.free(salt, 2) == 0;
     let axes = match variant {
         1 if r >= 2 => vec![if neg { -r } else { 0 }],
         2 if r >= 2 => vec![r - 2, r - 1],
+        3 if r >= 2 => vec![-2, -1],
+        4 if r >= 3 => vec![0, -1],
+        4 if r >= 2 => vec![-2, -1],
         _ => vec![if neg { -1 } else { r - 1 }],
     };
     Axes { axes, as_input: g.free(salt + 1, 2) == 0 }
+}
+
+/// Input shape for the norm templates: rank 1-4, but rank >= 3 when a multi-axis variant is selected.
+fn norm_shape(g: &G, axis_variant: usize) -> Vec<usize> {
+    if axis_variant >= 2 {
+        g.base_shape(3, 4)
+    } else {
+        g.base_shape(1, 4)
+    }
 }
 
 fn epsilon(g: &mut G, x: Vid, variant: usize) -> Vid {
@@ -95,21 +108,29 @@ fn square_up(shape: &mut [usize]) {
 /// LayerNormalizationFusion:
 /// `c = x - ReduceMean(x); y = c / Sqrt(eps + ReduceMean(Pow(c, 2))) * scale (+ bias)`.
 ///
-/// knobs: 0 reduction axis (last / first / last two), 1 keepdims=0, 2 epsilon shape ([] / [1] / [1;r] / [1;r+1]),
+/// knobs: 0 reduction axes (last / first / [r-2,r-1] / [-2,-1] / [0,-1] for both means / [-2,-1] for the centring
+/// mean only / [-2,-1] for the variance mean only; multi-axis variants use rank >= 3 inputs), 1 keepdims=0, 2 epsilon shape ([] / [1] / [1;r] / [1;r+1]),
 /// 3 scale shape ([D] / [] / [1] / [1,D] / full / [N,1] / rank+1), 4 bias (as scale, 1 = absent),
 /// 5 Pow spelling (2 / 3 / exponent [1;r] / c*c), 6 the variance branch recomputes the centred value with the
 /// mean over another axis, 7 division spelled c * Reciprocal(d), 8 scale is a graph input, 9 `mean - x`.
 /// Free: epsilon value (1e-5 / 1e-3 / 0.1) and position, axes as attribute or input, -1 vs r-1, operand orders.
 pub fn layer_norm(g: &mut G) -> Vid {
     g.knobs(&["axis", "keepdims0", "epsshape", "scaleshape", "bias", "pow", "dupcentre", "recipdiv", "scaleinput", "negcentre"]);
-    let mut shape = g.base_shape(1, 4);
+    let av = g.kc(0, 7);
+    let mut shape = norm_shape(g, av);
     let keep = g.kc(1, 2) == 0;
     if !keep {
         square_up(&mut shape);
     }
     let r = shape.len();
     let x = g.ctx_input(&shape);
-    let ax = norm_axes(g, r, g.kc(0, 3), 1);
+    // (centring mean axes, variance mean axes)
+    let last = norm_axes(g, r, 0, 1);
+    let (ax, var_ax) = match av {
+        5 => (norm_axes(g, r, 3, 1), last),
+        6 => (last, norm_axes(g, r, 3, 1)),
+        v => (norm_axes(g, r, v, 1), norm_axes(g, r, v, 1)),
+    };
     let centre = |g: &mut G, axes: &Axes| -> Vid {
         let m = g.reduce_mean(x, &axes.axes, keep, axes.as_input, DType::I64, vec![]);
         g.inters.push(m);
@@ -131,7 +152,7 @@ pub fn layer_norm(g: &mut G) -> Vid {
     };
     let sq = square(g, c2, g.kc(5, 4));
     g.inters.push(sq);
-    let var = g.reduce_mean(sq, &ax.axes, keep, ax.as_input, DType::I64, vec![]);
+    let var = g.reduce_mean(sq, &var_ax.axes, keep, var_ax.as_input, DType::I64, vec![]);
     g.inters.push(var);
     let eps = epsilon(g, x, g.kc(2, 4));
     let ve = g.bin_comm("Add", eps, var, 3);
@@ -165,19 +186,21 @@ pub fn layer_norm(g: &mut G) -> Vid {
 
 /// RMSNormalizationFusion: `x * Reciprocal(Sqrt(eps + ReduceMean(Pow(x, 2)))) * scale`.
 ///
-/// knobs: 0 reduction axis, 1 keepdims=0, 2 epsilon shape, 3 scale shape, 4 Pow spelling,
+/// knobs: 0 reduction axes (last / first / [r-2,r-1] / [-2,-1] / [0,-1]; multi-axis variants use rank >= 3 inputs),
+/// 1 keepdims=0, 2 epsilon shape, 3 scale shape, 4 Pow spelling,
 /// 5 `x / Sqrt(..)` instead of `x * Reciprocal(..)`, 6 scale is a graph input, 7 Pow of a different value.
 /// Free: Reciprocal op vs `1 / s`, bracketing of the product, epsilon value / position, axes spelling.
 pub fn rms_norm(g: &mut G) -> Vid {
     g.knobs(&["axis", "keepdims0", "epsshape", "scaleshape", "pow", "divsqrt", "scaleinput", "otherpow"]);
-    let mut shape = g.base_shape(1, 4);
+    let av = g.kc(0, 5);
+    let mut shape = norm_shape(g, av);
     let keep = g.kc(1, 2) == 0;
     if !keep {
         square_up(&mut shape);
     }
     let r = shape.len();
     let x = g.ctx_input(&shape);
-    let ax = norm_axes(g, r, g.kc(0, 3), 1);
+    let ax = norm_axes(g, r, av, 1);
     let px = if g.kc(7, 2) == 1 { g.un("Neg", x) } else { x };
     let sq = square(g, px, g.kc(4, 4));
     g.inters.push(sq);
